@@ -227,7 +227,7 @@ def decode_mappings(mappings):
 
 
 # --------------------------------------------------------------------------- records
-NULLNODE = {"t": "Null", "v": "", "a": "", "c": [], "id": 0}
+NULLNODE = {"t": "Null", "v": "", "a": "", "c": [], "id": 0, "n": 0, "l": 0, "k": 0, "el": 0, "ek": 0}
 
 
 def cfg_for_spec(eff):
@@ -246,7 +246,7 @@ def cfg_for_spec(eff):
     }
 
 
-def static_record(rid, req, resp, with_pos=False):
+def static_record(rid, req, resp, with_pos=True):
     """trace record for TraceStatic.tla from one driver response (needs in_ast, out_ast, effective_config)"""
     rec = {"rid": rid, "outcome": resp.get("outcome", "abort"), "error": str(resp.get("error") or "")}
     if rec["outcome"] != "ok":
@@ -285,6 +285,13 @@ def static_record(rid, req, resp, with_pos=False):
         "has_debug": dbg is not None,
         "debug": [{"tag": k, "n": int(v)} for k, v in sorted((dbg or {}).items())],
         "in_mentions_ns": "_ddiast" in code,
+        # C14: the literal report, flattened to one entry per reported location
+        "has_literals": resp.get("literals") is not None,
+        "literal_values": [x["value"] for x in (resp.get("literals") or {}).get("literals", [])],
+        "literal_locs": [{"value": x["value"], "ident": loc.get("ident") or "", "has_ident": loc.get("ident") is not None,
+                          "line": int(loc["line"]), "col": int(loc["column"])}
+                         for x in (resp.get("literals") or {}).get("literals", []) for loc in x["locations"]],
+        "literals_file_ok": (resp.get("literals") or {}).get("file", req["file"]) == req["file"],
     })
     return rec
 
